@@ -41,6 +41,8 @@ DTu(d) == [k |-> "datetime", t2 |-> 2 * d, us |-> 1]   \* midnight of day d plus
 Tup(items) == [k |-> "tuple", items |-> items]
 Lst(items) == [k |-> "list", items |-> items]
 Call == [k |-> "callable"]
+\* callables that cannot serve as a value generator (they take no attributes): the builtin function len, the builtin type float
+Blt(w) == [k |-> "builtin", w |-> w]
 Cls(c) == [k |-> "class", c |-> c]       \* the class object itself: "A", "SubA", "Other"
 Inst(c) == [k |-> "inst", c |-> c]      \* an instance of that class
 Dct == [k |-> "dict"]
@@ -92,8 +94,8 @@ DateCands == {D(1), D(2), D(3), D(4), D(5), DT(1, 1), DT(2, 0), DT(2, 1), DT(3, 
               DTu(2), DTu(4)}       \* one microsecond past a lower / an upper bound
 Wrong == {None, S("a1"), Tup(<<I(1), I(2)>>), Lst(<<I(1)>>)}
 Cands(t) ==
-  CASE t \in {"Number", "Magnitude"} -> NumCands \cup Wrong
-    [] t = "Integer" -> NumCands \cup Wrong
+  CASE t \in {"Number", "Magnitude"} -> NumCands \cup Wrong \cup {Blt("len"), Blt("float")}
+    [] t = "Integer" -> NumCands \cup Wrong \cup {Blt("len"), Blt("float")}
     [] t \in {"Date", "CalendarDate"} -> DateCands \cup {None, I(3), S("a1"), F(4)}
     [] t \in {"Boolean", "Event"} -> {Bo(TRUE), Bo(FALSE), None, I(0), I(1), S("a1"), F(2)}
     [] t = "String" -> {S("a1"), S("zz"), S(""), None, B("a1"), I(1), Lst(<<>>)}
